@@ -224,8 +224,10 @@ def tail(path, n=3000):
         return ""
 
 
-def replay(binary, prop, path, outdir, race, tier):
+def replay(binary, prop, path, outdir, race, tier, with_history=False):
     e = env_base()
+    if with_history:
+        e["VERIF_REPLAY_WITH_HISTORY"] = "1"
     out = os.path.join(outdir, "replay-%d.json" % int(time.time() * 1000000))
     e.update({"VERIF_PROP": prop, "VERIF_REPLAY": path, "VERIF_OUT": out, "VERIF_TIER": tier, "GOMAXPROCS": "2", "TMPDIR": outdir,
               "VERIF_KNOWN": os.path.join(VERIF, "known_findings.json")})
@@ -365,6 +367,20 @@ def drive(a, prop, tier, cdir, plain, outdir, need_race, log, t0):
                 infra("violation %s without a replay file (%s)" % (v["sig"], v["replay"]))
             o = replay(racebin(cdir) if s["_race"] else plain, prop, v["replay"], outdir, s["_race"], tier)
             if not o.get("reproduced"):
+                # does it reproduce after the runs its worker made before it (regenerated from the seed)? then the
+                # library keeps state across events in process-wide variables; the replay file is told to replay them too
+                o2 = replay(racebin(cdir) if s["_race"] else plain, prop, v["replay"], outdir, s["_race"], tier, with_history=True)
+                if o2.get("reproduced"):
+                    try:
+                        doc = json.load(open(v["replay"]))
+                        doc["needs_history"] = True
+                        with open(v["replay"], "w") as fh:
+                            json.dump(doc, fh, indent=1)
+                    except Exception as ex:  # noqa
+                        infra("cannot update replay file %s: %s" % (v["replay"], ex))
+                    v["msg"] = (v.get("msg") or "") + "\n  (reproduces only after the earlier runs of its worker: the outcome depends on state kept in process-wide variables across events; the replay file re-executes those runs first)"
+                    confirmed.append(v)
+                    continue
                 infra("violation %s (seed %s run %s) did not reproduce from its replay file %s in a fresh process: machinery is not deterministic"
                       % (v["sig"], v["seed"], v["run"], v["replay"]))
             confirmed.append(v)
